@@ -187,6 +187,10 @@ void oracle_c06_retry(World &w, const History &h)
         bool tcp_follows = false;
         for (auto &t : w.txs)
           if (t.q.ok && t.q.id == ptx.q.id && t.tcp && t.seq > p.seq_read) tcp_follows = true;
+        // the frame reaches the wire only when the application services the new connection: opening a TCP connection to
+        // that server after the truncated answer was read is the library's part
+        for (auto &x : w.socks)
+          if (x->tcp && x->server == ptx.server && x->connect_seq > p.seq_read) tcp_follows = true;
         if (!tcp_follows)
           w.violate("C06:mandated:truncated-answer-without-tcp-resend", fmt("query id %u read a truncated UDP answer (packet #%d) but was never transmitted over TCP afterwards", ptx.q.id, p.serial));
         else
@@ -206,8 +210,11 @@ void oracle_c06_retry(World &w, const History &h)
   };
   // accepted samples per server (a learned timeout needs three)
   int samples[8] = { 0 };
+  // every query (also a sub-query of a lookup, which has no callback of its own) that ends with NOERROR or NXDOMAIN adds
+  // a latency sample: count the replies read with those rcodes (an over-estimate only relaxes the lower bound)
   for (auto &p : w.packets)
-    if (p.t_accept >= 0 && p.src_server >= 0 && p.src_server < 8) samples[p.src_server]++;
+    if ((p.t_accept >= 0 || (p.seq_read >= 0 && !p.forged && !p.tc && (p.rcode == vdns::RC_NOERROR || p.rcode == vdns::RC_NXDOMAIN))) && p.src_server >= 0 && p.src_server < 8)
+      samples[p.src_server]++;
   bool learned = false;
   for (int i = 0; i < 8; i++)
     if (samples[i] >= 3) learned = true;
